@@ -3207,12 +3207,27 @@ M("s15-parties-by-division", "C05", "fire S15 S1", "src/compile.rs",
   """            let total = param.ty.size_in_bits_for_defs(self, &const_sizes);
             for _ in 0..*size {
                 let type_size = total / *size;""", "seed C05-i (shape): the bits of one party computed as total / number of elements")
-REVERT("revert-importer-bounds-and-assigned", "C11", "fire B5 B6", "20237f8", "pre-fix tree: tables sized by unchecked header numbers; no table of assigned wires")
-M("b5-file-length-guard-dropped", "C11", "fire B5", "src/convert.rs",
+# (REVERT of 20237f8 - importer bounds and assigned-table - no longer applies after 8985a92; its B5 half is revert-importer-fallible-tables, its B6 half the b6-* mutants)
+REVERT("revert-importer-fallible-tables", "C11", "fire B5", "8985a92", "pre-fix tree: tables sized by the declared wires, only the non-input wires bounded by the file")
+M("b5-reservation-result-dropped", "C11", "fire B5", "src/convert.rs",
+  """    table.try_reserve_exact(len).ok()?;""",
+  """    let _ = table.try_reserve_exact(len);""", "the helper allocates whether or not the reservation succeeded")
+M("b5-quiet-reservation-tested-with-if", "C11", "quiet", "src/convert.rs",
+  """    table.try_reserve_exact(len).ok()?;""",
+  """    if table.try_reserve_exact(len).is_err() {
+        return None;
+    }""", "same helper, test written out")
+M("b5-outputs-table-direct", "C11", "fire B5", "src/convert.rs",
+  """            let Some(output_gates) = table(num_output_wires, 0) else {
+                return Err(FromBristolError::MalformedLine(line_str));
+            };
+            (output_gates, first_output_wire)""",
+  """            (vec![0; num_output_wires], first_output_wire)""", "outputs allocated directly again (they may be input wires: not bounded by the file)")
+M("b5-file-length-guard-dropped", "C11", "quiet", "src/convert.rs",
   """            if wires_num - input_wires > lines.len() {
                 return Err(FromBristolError::MalformedLine(line_str));
             }
-""", "", "the declared wire count is no longer compared with the length of the file")
+""", "", "since 8985a92 the tables are reserved fallibly: the early comparison with the length of the file only saves work")
 M("b6-outputs-not-checked", "C11", "fire B6", "src/convert.rs",
   """        let mut output_wires = is_assigned.iter().enumerate().skip(first_output_wire);
         if let Some((wire, _)) = output_wires.find(|(_, is_assigned)| !**is_assigned) {
